@@ -14,7 +14,11 @@ ALWAYS_QUIRKS = D.LiveFlags(DRIVER, ["closeSwallows", "mediaInMediaNested", "atR
                                      "vendorKeyframesPrefixed"])
 RULE = ("programs with uniquely numbered loud (`/* */`), preserved (`/*!`) and silent (`//`) comments in every statement "
         "position: top level, style rules, nested-property blocks, @media/@supports/unknown at-rules, @at-root, "
-        "keyframes, @if/@each bodies, mixin bodies, @content blocks, function bodies, imported and used files; with "
+        "keyframes, @if/@each bodies, mixin bodies, @content blocks, function bodies, imported and used files; "
+        "stratum `modules`: root -> @use -> (@use | @forward [as p-* | show | hide]) chains, @import and "
+        "meta.load-css files, with comments of all kinds in every file and inside the mixin/function the root "
+        "includes from the innermost module; pragma-like texts (`# sourceMappingURL=`, `sourceURL=` in other "
+        "positions, via #{}); with "
         "interpolation (literal, function call, undefined variable), multi-line bodies and `/*#` comments; both output "
         "styles. non-trivial = at least one loud comment is reached and the implementation produced CSS")
 TRUSTED = ["props/_dest.py: program rendering, CSS tree builder, reference evaluation (which comments are reached, "
@@ -29,7 +33,10 @@ STRATA = [
     ("in-at-rules", dict(comment=0.6, silent=0.2, ns=0.2, media_in_media=0.0, atroot=0.2, interp=0.2)),
     ("interp", dict(comment=0.5, interp=0.9, undef=0.15, func=0.6, silent=0.1, media_in_media=0.0)),
     ("multiline-hash", dict(comment=0.5, multiline=0.5, hash=0.25, silent=0.2, media_in_media=0.0, bang=0.2)),
+    ("pragma-texts", dict(comment=0.5, pragma=0.6, interp=0.2, silent=0.1, ns=0.3, control=0.3, mixin=0.4, load=0.4,
+                          media_in_media=0.0)),
 ]
+MODULE_W = dict(comment=0.5, interp=0.3, pragma=0.25, bang=0.35, hash=0.05)
 
 
 def d(k):
@@ -58,6 +65,14 @@ def fixed():
         [('M', 'q', [c(1), ('R', 'a', [d(2)]), c(3, True)])],
         [('R', 'a', [('C', False, [('t', " c1\n      * l2\n   ")]), d(3), ('R', 'b', [('C', False, [('t', " c4\n * l5\n ")]), d(6)])])],
     ]
+    # pragma-like comment texts: only the exact prefixes `# sourceMappingURL=` / `# sourceURL=` may be left out
+    texts = ["# sourceMappingURL=x", "# sourceURL=y", " sourceMappingURL=x ", "see sourceURL=y", "#sourceMappingURL",
+             "#sourceMappingURL=x", "! sourceMappingURL=x", "@ sourceMappingURL=x", " c # sourceURL=z "]
+    for t in texts:
+        bang = t.startswith("!")
+        cut = t.find("source")
+        progs.append([('C', bang, [('t', t)]), ('R', 'a', [('C', bang, [('t', t)]), d(1)])])
+        progs.append([('R', 'a', [('C', bang, [('t', t[:cut]), ('i', ('q', t[cut:].rstrip())), ('t', " ")]), d(1)])])
     for p in progs:
         for st in "ec":
             yield Case(D.case_line(p, st), "fixed")
@@ -66,6 +81,9 @@ def fixed():
 def gen(tier, rng, boost=1):
     yield from fixed()
     n = (230 if tier == "quick" else 6000) * boost
+    for _ in range(n):
+        g = D.Gen(rng, **MODULE_W)
+        yield Case(D.case_line(g.module_program(), rng.choice("ec")), "modules")
     for name, w in STRATA:
         for _ in range(n):
             g = D.Gen(rng, **w)
